@@ -304,6 +304,12 @@ func genPCall(w *e.World, r *e.RNG, signer, self int) *PCall {
 		if r.Chance(0.3) {
 			c.To = fmt.Sprintf("fic:%d", r.Intn(nFIC))
 		}
+		if r.Chance(0.15) {
+			// an address that may not receive funds (module accounts, precompile addresses)
+			blocked := []common.Address{common.BytesToAddress(e.ModuleAddr("fee_collector").Bytes()), common.BytesToAddress(e.ModuleAddr("distribution").Bytes()),
+				common.BytesToAddress(e.ModuleAddr(stakingtypes.BondedPoolName).Bytes()), addrStaking, addrDistr}
+			c.To = blocked[r.Intn(len(blocked))].Hex()
+		}
 	case 6:
 		c.PC, c.M = "distribution", "withdrawValidatorCommission"
 	case 7:
